@@ -47,7 +47,10 @@ func traceUpdater(t *testing.T, o opts) {
 		emit("begin\t%d", h)
 		sv := newSvc()
 		sv.set("w", 1, []byte("v1"))
-		st, err := setec.NewStore(context.Background(), setec.StoreConfig{Client: sv, Secrets: []string{"w"}, PollInterval: -1, Logf: func(string, ...any) {}})
+		// a cache whose writes fail now and then: installing and announcing a new version does not
+		// depend on it
+		rc := &recCache{}
+		st, err := setec.NewStore(context.Background(), setec.StoreConfig{Client: sv, Secrets: []string{"w"}, Cache: rc, PollInterval: -1, Logf: func(string, ...any) {}})
 		if err != nil {
 			t.Fatal(err)
 		}
@@ -59,11 +62,24 @@ func traceUpdater(t *testing.T, o opts) {
 		}
 		var upds []*upd
 		ver := uint32(1)
-		newUpd := func() {
+		lastBad := false
+		inPoll := false // set while newUpd runs inside a poll (a Refresh from there would wait for that very poll)
+		var newUpd func()
+		newUpd = func() {
 			i := len(upds)
 			ud := &upd{}
+			// now and then a new version is installed while the initial value is being built
+			midInstall := !lastBad && !inPoll && r.Intn(5) == 0
+			midVal := ""
 			u, err := setec.NewUpdater(context.Background(), st, "w", func(b []byte) (*uval, error) {
 				ud.builds++
+				if midInstall && ud.builds == 1 {
+					ver++
+					val := []byte(fmt.Sprintf("v%d", ver))
+					sv.set("w", ver, val)
+					st.Refresh(context.Background())
+					midVal = hb(val)
+				}
 				if bytes.HasPrefix(b, []byte("bad")) {
 					return nil, errors.New("builder rejects")
 				}
@@ -76,7 +92,11 @@ func traceUpdater(t *testing.T, o opts) {
 			if err == nil {
 				src = hb(u.Get().src)
 			}
-			emit("newupd\tu=%d\tok=%s\tsrc=%s", i, b01(err == nil), src)
+			mi := ""
+			if midVal != "" {
+				mi = "\tmidinstall=" + midVal
+			}
+			emit("newupd\tu=%d\tok=%s\tsrc=%s%s", i, b01(err == nil), src, mi)
 		}
 		newUpd()
 		for s := 0; s < o.steps; s++ {
@@ -89,19 +109,29 @@ func traceUpdater(t *testing.T, o opts) {
 					val = []byte(fmt.Sprintf("bad%d", ver))
 				}
 				sv.set("w", ver, val)
+				lastBad = bad
+				cacheFails := r.Intn(4) == 0
+				rc.mu.Lock()
+				rc.writeFail = cacheFails
+				rc.mu.Unlock()
 				mid := false
 				if len(upds) < 4 && r.Intn(6) == 0 {
 					// an updater created while the poll is in flight: after the fetch, before the apply
 					mid = true
 					sv.mu.Lock()
-					sv.hook = func(string, string, int) { newUpd() }
+					sv.hook = func(string, string, int) { inPoll = true; newUpd(); inPoll = false }
 					sv.mu.Unlock()
 				}
 				err := st.Refresh(context.Background())
 				sv.mu.Lock()
 				sv.hook = nil
 				sv.mu.Unlock()
-				emit("install\tver=%d\tval=%s\tbad=%s\tmid=%s\tres=%s", ver, hb(val), b01(bad), b01(mid), b01(err == nil))
+				rc.mu.Lock()
+				rc.writeFail = false
+				rc.mu.Unlock()
+				// the scripted service never fails here: an error can only be the cache write's, and
+				// the version is installed (and announced) all the same
+				emit("install\tver=%d\tval=%s\tbad=%s\tmid=%s\tres=%s\tcachefail=%s", ver, hb(val), b01(bad), b01(mid), b01(err == nil || cacheFails), b01(cacheFails))
 			case x < 9: // Get
 				i := r.Intn(len(upds))
 				ud := upds[i]
